@@ -22,6 +22,8 @@ type CrashStore struct {
 	Writes  int
 	Written map[string]bool // events whose first SetEvent returned
 	Order   []string
+	Creator map[string]string
+	Index   map[string]int
 	Log     []string
 }
 
@@ -42,6 +44,11 @@ func (s *CrashStore) SetEvent(e *hg.Event) error {
 	if err == nil && !s.Written[e.Hex()] {
 		s.Written[e.Hex()] = true
 		s.Order = append(s.Order, e.Hex())
+		if s.Creator == nil {
+			s.Creator, s.Index = map[string]string{}, map[string]int{}
+		}
+		s.Creator[e.Hex()] = e.Creator()
+		s.Index[e.Hex()] = e.Index()
 	}
 	return err
 }
